@@ -777,6 +777,12 @@ func (s *Server) startIPCPNegotiation(session *Session) {
 
 // handleIPCP handles IPCP packets
 func (s *Server) handleIPCP(session *Session, data []byte) {
+	// The network-layer phase starts only after authentication succeeded
+	// (RFC 1661 3.5/3.7); before that IPCP packets are silently discarded
+	if !session.Authenticated {
+		return
+	}
+
 	pkt, err := ParseLCPPacket(data)
 	if err != nil {
 		return
